@@ -1578,8 +1578,10 @@ class Protocol(utils.EventEmitter):
         transaction_label, transaction_result = await self.start_transaction()
         self.send_message(transaction_label, command)
 
-        # Wait for the response
-        response = await transaction_result
+        # Wait for the response (or for the link to go away)
+        response = await self.l2cap_channel.connection.cancel_on_disconnection(
+            transaction_result
+        )
 
         # Check for errors
         if response.message_type in (
